@@ -395,7 +395,9 @@ impl<H: Hal, const SIZE: usize> VirtQueue<H, SIZE> {
             // SAFETY: `self.used` points to a valid, aligned, initialised, dereferenceable, readable
             // instance of `UsedRing`.
             let avail_event = unsafe { (*self.used.as_ptr()).avail_event.load(Ordering::Acquire) };
-            self.avail_idx >= avail_event.wrapping_add(1)
+            // Compare using wrapping (serial number) arithmetic, so that the result is still correct
+            // after `avail_idx` has wrapped around but `avail_event` hasn't yet.
+            self.avail_idx.wrapping_sub(avail_event.wrapping_add(1)) < 0x8000
         } else {
             // SAFETY: `self.used` points to a valid, aligned, initialised, dereferenceable, readable
             // instance of `UsedRing`.
